@@ -82,7 +82,8 @@ def run_replay(modname, cname, args, tier, seed, no_excl=False):
 def write_replay_script(prop, modname, cname, args, no_excl=False, tier="quick"):
     d = os.path.join(VERIF, "evidence", "replays", prop)
     os.makedirs(d, exist_ok=True)
-    path = os.path.join(d, cname + ".py")
+    safe = "".join(ch if (ch.isalnum() or ch in "[]=,.+-_'") else "_" for ch in cname)      # condition names may contain '/', spaces, quotes
+    path = os.path.join(d, safe + ".py")
     with open(path, "w") as f:
         f.write("#!/verif/.venv/bin/python\n"
                 "# Replays a counterexample on the real code in /repo/src (no solver involved).\n"
